@@ -19,11 +19,16 @@ C01Step(s, ev) ==
       got == LoadItems(ev.tree)
   IN IF r.bad # "" THEN [ok |-> TRUE, st |-> s, drop |-> TRUE, msg |-> ""]
      ELSE LET ok == ev.status = 0 /\ r.items = got
-              \* triage only: does the known deviation "built-in rules pass their parameters on" explain it?
-              kd == ~ok /\ ev.status = 0 /\ TransformWith(ev.ss, <<Forest[ev.doc]>>, TRUE).items = got
+              \* triage only: which named deviation (or combination) explains the recorded tree, if any
+              F1 == <<Forest[ev.doc]>>
+              is(d) == ev.status = 0 /\ TransformWith(ev.ss, F1, d).items = got
+              tag == IF ok THEN ""
+                     ELSE IF is([builtinPass |-> TRUE, zeroAnyEmpty |-> FALSE]) THEN "KD:builtinRulePassesParams "
+                     ELSE IF is([builtinPass |-> FALSE, zeroAnyEmpty |-> TRUE]) THEN "KD:numberAnyZeroCountGivesEmpty "
+                     ELSE IF is([builtinPass |-> TRUE, zeroAnyEmpty |-> TRUE]) THEN "KD:builtinRulePassesParams+numberAnyZeroCountGivesEmpty "
+                     ELSE ""
           IN [ok |-> ok, st |-> s, drop |-> FALSE, cont |-> TRUE,
-              msg |-> (IF kd THEN "KD:builtinRulePassesParams " ELSE "") \o
-                      "status " \o ToString(ev.status) \o " want " \o ToString(r.items) \o " got " \o ToString(got)]
+              msg |-> tag \o "status " \o ToString(ev.status) \o " want " \o ToString(r.items) \o " got " \o ToString(got)]
 
 TraceInit2 == TLCSet(2, ndJsonDeserialize(IOEnv.DOCS))
 INSTANCE TraceBase WITH StInit <- 0, Step <- C01Step
